@@ -10,6 +10,7 @@ import (
 	"net"
 	"os"
 	"strconv"
+	"sync"
 	"time"
 )
 
@@ -21,12 +22,14 @@ var (
 type TNC struct {
 	conn  net.Conn
 	demux *demux
+	wmu   *sync.Mutex // Serializes frame writes. A pointer, since TNCPort holds a copy of the TNC.
 }
 
 func newTNC(conn net.Conn) *TNC {
 	t := &TNC{
 		conn:  conn,
 		demux: newDemux(),
+		wmu:   new(sync.Mutex),
 	}
 	go t.run()
 	return t
@@ -93,7 +96,11 @@ func (t *TNC) RegisterPort(port int, mycall string) (*Port, error) {
 }
 
 func (t *TNC) write(f frame) error {
+	// A frame is written as header followed by data. Don't let frames written by other goroutines
+	// (another connection, the outstanding frames poller, an inbound connection being refused) get in between.
+	t.wmu.Lock()
 	_, err := f.WriteTo(t.conn)
+	t.wmu.Unlock()
 	if err == nil && f.DataKind != kindOutstandingFramesForConn {
 		debugf("-> %v", f)
 	}
